@@ -143,6 +143,20 @@ void prop(Src& s, Ctx& ctx) {
                 only_padding = q2 != nullptr;
             } catch (const std::exception&) {}
         }
+        // known root cause shared with C05's open finding: without an extension structure the RFC 4884 length attribute
+        // counts padding that is not emitted, so a parser looks for extensions beyond the real end of the quoted datagram
+        bool rfc4884 = false;
+        for (const PDU* l = p.get(); l; l = l->inner_pdu()) {
+            if (const ICMP* ic = dynamic_cast<const ICMP*>(l)) {
+                if (!ic->has_extensions() && ic->length() != 0 && ic->inner_pdu() && (uint32_t)ic->length() * 4 > ic->inner_pdu()->size()) rfc4884 = true;
+            } else if (const ICMPv6* i6 = dynamic_cast<const ICMPv6*>(l)) {
+                if (!i6->has_extensions() && i6->length() != 0 && i6->inner_pdu() && (uint32_t)i6->length() * 8 > i6->inner_pdu()->size()) rfc4884 = true;
+            }
+        }
+        if (rfc4884) {
+            VCHECK(ctx, false, "C03:reparse-rejected:rfc4884-length-counts-padding-that-is-not-emitted", chain << ": libtins rejects its own serialisation y=" << hex(y, 1024) << " | " << origin);
+            return;
+        }
         VCHECK(ctx, false, std::string(only_padding ? "C03:reparse-rejected-only-with-ethernet-padding:" : "C03:reparse-rejected:") + chain,
                chain << ": libtins rejects its own serialisation y=" << hex(y, 1024) << " | " << origin);
         return;
